@@ -117,6 +117,14 @@ def render_operand(p, a, asy, names):
             call = "unsafe { %s }" % call
         elif a.id % 16 == 13:
             call = "match 0u8 { _ => %s }" % call
+        elif a.id % 16 == 6:
+            call = "idm!(%s)" % call          # a macro call
+        elif a.id % 16 == 10:
+            call = "(%s)" % call              # parenthesized
+        elif a.id % 16 == 14:
+            call = "if yes() { %s } else { unreachable!() }" % call
+        elif asy and a.op == "Src" and a.id % 8 == 7:
+            call = "async move { %s.await }" % call   # an async block as the branch's first future
     if a.cap:
         snaps = "".join(" %s(%d, &%s);" % ("snapo" if p.opt else "snap", sid, names[b]) for sid, b in a.snaps)
         # every third capture is spelled as a labelled block (still a block expression)
